@@ -900,9 +900,27 @@ func (ex *exec) ruleLeftPad(st *State, fr *frame, r *StmtRule, pos token.Pos) {
 	ex.oblige(st, "leftpad", "len", And(IntLe(IntC64(0), src.Len), IntLe(src.Len, IntC64(n))), pos)
 	pd := poly(dst, n)
 	srcBe := env.beValue(src).(*Term)
+	// instances of the universally quantified facts of the path (loop invariants, copy/append facts) at the n element
+	// positions of dst and of src: consequences of the hypotheses, added so that the quantifier-free attempt decides
+	// the cases (the quantifiers alone made a few of the n+1 cases time out under load)
+	var insts []*Term
+	for _, h := range st.pc {
+		if h.Op != "forall" || len(h.Bound) != 1 || h.Bound[0].Sort != ex.idxSort() {
+			continue
+		}
+		for k := int64(0); k < n; k++ {
+			insts = append(insts, Subst(h.Args[0], map[*Term]*Term{h.Bound[0]: ex.add(dst.Off, ex.idxConst(k))}))
+			if !src.Off.IsConst() || !dst.Off.IsConst() || src.Off.Val.Cmp(dst.Off.Val) != 0 {
+				insts = append(insts, Subst(h.Args[0], map[*Term]*Term{h.Bound[0]: ex.add(src.Off, ex.idxConst(k))}))
+			}
+		}
+	}
 	for l := int64(0); l <= n; l++ {
 		c := st.clone()
 		c.assume(Eq(src.Len, IntC64(l)))
+		for _, t := range insts {
+			c.assume(t)
+		}
 		ex.oblige(c, "leftpad", fmt.Sprintf("case%d", l), Eq(pd, poly(src, l)), pos)
 		// definitional instance of be at this length
 		st.assume(Implies(Eq(src.Len, IntC64(l)), Eq(srcBe, poly(src, l))))
